@@ -274,10 +274,13 @@ PreBody(nd, b) ==
        THEN [nd |-> [nd EXCEPT !.orph = IF \E i \in 1..Len(@) : @[i] = b THEN @ ELSE Append(@, b)], res |-> "orphan"]
   ELSE [nd |-> nd, res |-> "go"]
 
+\* `note` = the adapter notification (block_accepted with determine_status): <<>> or one record
+\* [b, st: "next" | "reorg" | "fork", fp: fork point], as the pool and the network layer receive it
+NoNote == <<>>
 BodyStage(n1, b) ==
-  IF KnownInPipe(n1, b) THEN [nd |-> n1, res |-> "known"]
-  ELSE IF Parent(b) \notin n1.hdrs THEN [nd |-> n1, res |-> "reject"]      \* prev_header_store (cannot happen sequentially)
-  ELSE IF ~BodyOK(b) THEN [nd |-> n1, res |-> "reject"]
+  IF KnownInPipe(n1, b) THEN [nd |-> n1, res |-> "known", note |-> NoNote]
+  ELSE IF Parent(b) \notin n1.hdrs THEN [nd |-> n1, res |-> "reject", note |-> NoNote]      \* prev_header_store (cannot happen sequentially)
+  ELSE IF ~BodyOK(b) THEN [nd |-> n1, res |-> "reject", note |-> NoNote]
   ELSE
     LET prev == Parent(b)
         fp == LCA(n1.head, prev)
@@ -285,46 +288,57 @@ BodyStage(n1, b) ==
         st1 == ImplRewindTo(st0, n1.head, fp)
         st2 == ImplApplyFork(st1, Segment(fp, prev), 1)
     IN IF \E x \in {Segment(fp, prev)[i] : i \in 1..Len(Segment(fp, prev))} : x \notin n1.bodies
-       THEN [nd |-> n1, res |-> "reject"]                                  \* a fork body is missing (get_block fails)
-       ELSE IF ~st2.ok THEN [nd |-> n1, res |-> "reject"]
-       ELSE IF ~ImplUtxoOK(st2.u, st2.opos, b) THEN [nd |-> n1, res |-> "reject"]
-       ELSE IF ~ImplNrdOK(st2.nrd, b) THEN [nd |-> n1, res |-> "reject"]
-       ELSE IF ~LateOK(b) THEN [nd |-> n1, res |-> "reject"]
+       THEN [nd |-> n1, res |-> "reject", note |-> NoNote]                                  \* a fork body is missing (get_block fails)
+       ELSE IF ~st2.ok THEN [nd |-> n1, res |-> "reject", note |-> NoNote]
+       ELSE IF ~ImplUtxoOK(st2.u, st2.opos, b) THEN [nd |-> n1, res |-> "reject", note |-> NoNote]
+       ELSE IF ~ImplNrdOK(st2.nrd, b) THEN [nd |-> n1, res |-> "reject", note |-> NoNote]
+       ELSE IF ~LateOK(b) THEN [nd |-> n1, res |-> "reject", note |-> NoNote]
        ELSE LET st3 == ImplApply(st2, b) IN
             IF Work(b) > Work(n1.head)
             THEN [nd |-> [n1 EXCEPT !.u = st3.u, !.opos = st3.opos, !.spentIdx = st3.spentIdx,
                                     !.sums = st3.sums, !.nrd = st3.nrd, !.bodies = @ \cup {b}, !.head = b,
                                     !.tail = IF @ = -1 THEN Height(b) ELSE @],
-                  res |-> "ok_head"]
-            ELSE [nd |-> [n1 EXCEPT !.bodies = @ \cup {b}, !.tail = IF @ = -1 THEN Height(b) ELSE @], res |-> "ok_fork"]
+                  res |-> "ok_head",
+                  \* determine_status asks whether the previous head is on the HEADER chain (header MMR), which
+                  \* follows the header head, not the body head: a block that merely extends the head is reported
+                  \* as a reorg while the header head is on another fork, and a real reorg as "next" when the
+                  \* previous head is an ancestor of the header head
+                  note |-> <<[b |-> b, st |-> IF Height(n1.head) <= Height(b) /\ IsAnc(n1.head, n1.hhead) THEN "next" ELSE "reorg", fp |-> fp]>>]
+            ELSE [nd |-> [n1 EXCEPT !.bodies = @ \cup {b}, !.tail = IF @ = -1 THEN Height(b) ELSE @], res |-> "ok_fork",
+                  note |-> <<[b |-> b, st |-> "fork", fp |-> fp]>>]
 
 ProcBlockSingle(nd, b) ==
   LET ph == ProcHeader(nd, b) IN
-  IF ~ph.ok THEN [nd |-> nd, res |-> "reject"]
+  IF ~ph.ok THEN [nd |-> nd, res |-> "reject", note |-> NoNote]
   ELSE LET pb == PreBody(ph.nd, b) IN
-       IF pb.res # "go" THEN pb ELSE BodyStage(pb.nd, b)
+       IF pb.res # "go" THEN [nd |-> pb.nd, res |-> pb.res, note |-> NoNote] ELSE BodyStage(pb.nd, b)
 
 \* check_orphans(height): process (in insertion order) all orphans at that height; if any
 \* was accepted continue with the next height.
 RemoveAt(sq, h) == SelectSeq(sq, LAMBDA x : Height(x) # h)
 TakeAt(sq, h) == SelectSeq(sq, LAMBDA x : Height(x) = h)
 
-RECURSIVE ProcOrphanList(_, _, _, _)
-ProcOrphanList(nd, lst, i, acc) ==
-  IF i > Len(lst) THEN [nd |-> nd, accepted |-> acc]
+RECURSIVE ProcOrphanList(_, _, _, _, _)
+ProcOrphanList(nd, lst, i, acc, notes) ==
+  IF i > Len(lst) THEN [nd |-> nd, accepted |-> acc, notes |-> notes]
   ELSE LET r == ProcBlockSingle(nd, lst[i]) IN
-       ProcOrphanList(r.nd, lst, i + 1, acc \/ r.res \in {"ok_head", "ok_fork"})
+       ProcOrphanList(r.nd, lst, i + 1, acc \/ r.res \in {"ok_head", "ok_fork"}, notes \o r.note)
 
-RECURSIVE CheckOrphans(_, _)
-CheckOrphans(nd, h) ==
+\* returns [nd, notes]
+RECURSIVE CheckOrphansN(_, _, _)
+CheckOrphansN(nd, h, notes) ==
   LET lst == TakeAt(nd.orph, h) IN
-  IF lst = <<>> THEN nd
-  ELSE LET r == ProcOrphanList([nd EXCEPT !.orph = RemoveAt(@, h)], lst, 1, FALSE) IN
-       IF r.accepted THEN CheckOrphans(r.nd, h + 1) ELSE r.nd
+  IF lst = <<>> THEN [nd |-> nd, notes |-> notes]
+  ELSE LET r == ProcOrphanList([nd EXCEPT !.orph = RemoveAt(@, h)], lst, 1, FALSE, notes) IN
+       IF r.accepted THEN CheckOrphansN(r.nd, h + 1, r.notes) ELSE [nd |-> r.nd, notes |-> r.notes]
+CheckOrphans(nd, h) == CheckOrphansN(nd, h, <<>>).nd
 
+\* returns [nd, res, notes]: notes = the notifications of the call in order (the block itself, then retried orphans)
 ProcBlock(nd, b) ==
   LET r == ProcBlockSingle(nd, b) IN
-  IF r.res \in {"ok_head", "ok_fork"} THEN [nd |-> CheckOrphans(r.nd, Height(b) + 1), res |-> r.res] ELSE r
+  IF r.res \in {"ok_head", "ok_fork"}
+  THEN LET c == CheckOrphansN(r.nd, Height(b) + 1, r.note) IN [nd |-> c.nd, res |-> r.res, notes |-> c.notes]
+  ELSE [nd |-> r.nd, res |-> r.res, notes |-> <<>>]
 
 -----------------------------------------------------------------------------
 (* Chain::compact (chain.rs): rewrites the pruned MMR files up to the horizon (no change of the
@@ -395,7 +409,7 @@ DeliverBlock(b) ==
   /\ (HeadersFirst => HeadersDone)
   /\ LET r == ProcBlock(n, b) IN
        /\ n' = r.nd
-       /\ last' = [k |-> "ProcessBlock", b |-> b, res |-> r.res]
+       /\ last' = [k |-> "ProcessBlock", b |-> b, res |-> r.res, notes |-> r.notes]
   /\ ndel' = ndel + 1
   /\ UNCHANGED tree
 
